@@ -325,7 +325,7 @@ def run_model(model, budget):
     exceeded = False
     unknown_jump = None
     try:
-        outcome = ['ok', canon_value(rt.execute_script(copy.deepcopy(model), options))]
+        outcome = ['ok', canon_value(rt.execute_script(model, options))]
     except rt.BareScriptRuntimeError as exc:
         msg = str(exc)
         exceeded = msg.startswith('Exceeded maximum script statements')
@@ -361,9 +361,13 @@ def fresh_name(model, n=0):
     return f'{FRESH}{n}'
 
 
+def fast_copy(model):
+    return json.loads(json.dumps(model))
+
+
 def apply_edit(model, w):
     """The edit a warning suggests -> (edited model, needs_budget_care) or None if the warning suggests none."""
-    m = copy.deepcopy(model)
+    m = fast_copy(model)
     kind = w['kind']
     if kind in ('unused-var', 'unused-arg') and w['scope'] is not None:
         fn = m['statements'][w['scope']]['function']
@@ -425,7 +429,7 @@ def unknown_jump_check(model, w, report):
     scope = w['scope']
     if not (scope is None or isinstance(scope, int)):
         return
-    m = copy.deepcopy(model)
+    m = fast_copy(model)
     stmts = scope_statements(m, scope)
     ix = w['index']
     if ix >= len(stmts) or 'jump' not in stmts[ix] or stmts[ix]['jump']['label'] != w['name']:
@@ -453,7 +457,7 @@ def unknown_jump_check(model, w, report):
 def check_model(model, report, stats, semantic_cap=8):
     """Runs every oracle on the real implementation. -> the warning list (or {'error': ...})."""
     impl_model = fw.impl()['model']
-    snapshot = copy.deepcopy(model)
+    snapshot = fast_copy(model)
     snap_text = json.dumps(model)
     try:
         warnings = impl_model.lint_script(model)
@@ -528,6 +532,8 @@ class SrcGen:
 
     def var(self, scope_args):
         r = self.rng
+        if r.random() < 0.06:
+            return r.choice(FUNCS)          # a script function passed around as a value
         pool = LVARS + GVARS + list(scope_args)
         return r.choice(pool)
 
@@ -553,7 +559,8 @@ class SrcGen:
             return self.var(args)
         if k < 0.90:
             n = r.randint(0, 2)
-            return f'{r.choice(FUNCS)}({", ".join(self.expr(args, depth + 1) for _ in range(n))})'
+            callee = r.choice(FUNCS) if r.random() < 0.8 else r.choice(['cb', 'tmp', 'cnt'] + [a for a in args if len(a) > 1])
+            return f'{callee}({", ".join(self.expr(args, depth + 1) for _ in range(n))})'
         if k < 0.94:
             return f'if({self.expr(args, depth + 1)}, {self.expr(args, depth + 1)}, {self.expr(args, depth + 1)})'
         if k < 0.97:
@@ -618,7 +625,7 @@ class SrcGen:
         r = self.rng
         name = r.choice(FUNCS)
         nargs = r.choice([0, 1, 1, 2, 2, 3])
-        args = [r.choice(['p', 'q', 'r', 'a', 'x']) for _ in range(nargs)]
+        args = [r.choice(['p', 'q', 'cb', 'a', 'x']) for _ in range(nargs)]
         dots = '...' if args and r.random() < 0.2 else ''
         pre = 'async ' if r.random() < 0.1 else ''
         self.lines.append(f'{pre}function {name}({", ".join(args)}{dots}):')
@@ -654,6 +661,8 @@ class JumpGen:
         if depth >= 3 or k < 0.3:
             if r.random() < 0.4:
                 return {'number': r.choice(JNUMS)}
+            if r.random() < 0.06:
+                return {'variable': r.choice(FUNCS)}
             return {'variable': r.choice(JVARS + JARGS)}
         if k < 0.5:
             op = r.choice(['+', '-', '/', '%', '&&', '||'] + CMP)
@@ -671,7 +680,7 @@ class JumpGen:
         if not calls:
             return {'variable': r.choice(JVARS)}
         if k < 0.93:
-            fn = {'name': r.choice(FUNCS + ['fnA', 'x', 'p'])}
+            fn = {'name': r.choice(FUNCS + ['fnA', 'x', 'p', 'q', 'tmp'])}
             if r.random() < 0.85:
                 fn['args'] = [self.expr(depth + 1) for _ in range(r.randint(0, 2))]
             return {'function': fn}
@@ -725,6 +734,54 @@ class JumpGen:
 # streams
 # ---------------------------------------------------------------------------------------------------------------------
 
+def statement_paths(model):
+    """Paths of all statements: (i,) top level, (i, j) statement j of the function at i, (i, j, k) one level deeper."""
+    out = []
+
+    def walk(prefix, stmts):
+        for ix, st in enumerate(stmts):
+            out.append(prefix + (ix,))
+            if 'function' in st:
+                walk(prefix + (ix,), st['function']['statements'])
+    walk((), model['statements'])
+    return out
+
+
+def without(model, path):
+    m = fast_copy(model)
+    stmts = m['statements']
+    for ix in path[:-1]:
+        stmts = stmts[ix]['function']['statements']
+    del stmts[path[-1]]
+    return m
+
+
+def oracle_failures(model):
+    found = []
+
+    def report(oracle, input_, expected, actual, **extra):
+        found.append(dict(extra, oracle=oracle, input=jsonable(input_), expected=jsonable(expected), actual=jsonable(actual)))
+    check_model(fast_copy(model), report, {}, semantic_cap=1000)
+    return found
+
+
+def shrink_model(model, oracle, budget=600):
+    """Delta debugging on statements: drop statements while the same oracle still fails on the implementation."""
+    calls = 0
+    changed = True
+    while changed and calls < budget:
+        changed = False
+        for path in reversed(statement_paths(model)):
+            if calls >= budget:
+                break
+            cand = without(model, path)
+            calls += 1
+            if any(f['oracle'] == oracle for f in oracle_failures(cand)):
+                model = cand
+                changed = True
+    return model
+
+
 def tags_of(parsed, model):
     tags = sorted({'w:' + w['kind'] for w in parsed}) or ['w:none']
     tags.append('fn%d' % min(3, sum(1 for s in model['statements'] if 'function' in s)))
@@ -738,7 +795,7 @@ def run_cases(ctx, name, rule, cases, semantic_cap=8):
     models = []
     for cid, model in cases:
         try:
-            fw.impl()['model'].validate_script(copy.deepcopy(model))
+            fw.impl()['model'].validate_script(fast_copy(model))
         except Exception:  # pylint: disable=broad-except
             stats['schema-invalid'] = stats.get('schema-invalid', 0) + 1
             continue
@@ -751,6 +808,18 @@ def run_cases(ctx, name, rule, cases, semantic_cap=8):
             if F19(w):   # known finding: keep a few examples, do not let them crowd out other witnesses
                 stats['F19-witness'] = stats.get('F19-witness', 0) + 1
                 if stats['F19-witness'] > 25:
+                    return
+                ctx.witness(oracle, w['input'], w['expected'], w['actual'], stream=name, case=cid, **extra)
+                return
+            if stats.get('shrunk', 0) < 3 and isinstance(w['input'], dict) and 'model' in w['input']:
+                # the first witnesses of a stream are minimised (so that the replay file holds a small input)
+                stats['shrunk'] = stats.get('shrunk', 0) + 1
+                small = shrink_model(w['input']['model'], oracle)
+                again = [f for f in oracle_failures(small) if f['oracle'] == oracle]
+                if again:
+                    f = again[0]
+                    rest = {k: v for k, v in f.items() if k not in ('oracle', 'input', 'expected', 'actual')}
+                    ctx.witness(oracle, f['input'], f['expected'], f['actual'], stream=name, case=cid, shrunk=True, **rest)
                     return
             ctx.witness(oracle, w['input'], w['expected'], w['actual'], stream=name, case=cid, **extra)
         impl_out = check_model(model, report, stats, semantic_cap)
